@@ -24,10 +24,10 @@ Proof. intros; subst; simpl; auto. Qed.
 Definition emb_shape (t : tbl embent) : list bool := map (fun o => match o with Some _ => true | None => false end) t.
 Record core := mkCore { k_shut : bool; k_qs : tbl question; k_qgen : idgen; k_ans : list (Z * answer);
                         k_exp : tbl expent; k_egen : idgen; k_emb : list bool; k_mgen : idgen;
-                        k_allocs : Z; k_queue : list Z }.
+                        k_allocs : Z; k_queue : list Z; k_sent : list (Z * Z); k_rel : list (Z * Z) }.
 Definition core_of (s : state) : core :=
   mkCore (s_shut s) (s_qs s) (s_qgen s) (s_ans s) (s_exp s) (s_egen s) (emb_shape (s_emb s)) (s_mgen s)
-         (s_allocs s) (s_queue s).
+         (s_allocs s) (s_queue s) (s_sent s) (s_rel s).
 
 Lemma emb_shape_replace : forall t n v,
   (exists w, nth_error t n = Some (Some w)) -> emb_shape (replace_nth n (Some v) t) = emb_shape t.
@@ -60,13 +60,13 @@ Proof. reflexivity. Qed.
 Lemma core_lref_cap : forall d x s, core_of (lref_cap d x s) = core_of s.
 Proof. intros d x s. destruct x; reflexivity. Qed.
 
-Lemma core_emb_release : forall e s, core_of (emb_release e s) = core_of s.
+Lemma core_emb_release : forall c e s, core_of (emb_release c e s) = core_of s.
 Proof.
-  intros e s. unfold emb_release. destruct (tget e (s_emb s)) as [em|] eqn:E; auto.
+  intros c e s. unfold emb_release. destruct (tget e (s_emb s)) as [em|] eqn:E; auto.
   destruct (0 <? e_refs em); auto.
   assert (Hs : emb_shape (replace_nth (Z.to_nat e) (Some (mkEmb (e_cap em) (e_refs em - 1))) (s_emb s)) = emb_shape (s_emb s)).
   { apply tget_some in E. destruct E as [_ E]. apply emb_shape_replace; eauto. }
-  destruct ((e_refs em - 1 =? 0) && negb (emb_busy e s)).
+  destruct ((e_refs em - 1 =? 0) && negb (emb_busy e s) && negb (fx22 c)).
   - rewrite core_lref_cap. unfold core_of; simpl. rewrite Hs. reflexivity.
   - unfold core_of; simpl. rewrite Hs. reflexivity.
 Qed.
@@ -118,7 +118,7 @@ Proof.
     inversion H; subst. split; assumption.
   - inversion H; subst. unfold emb_release. destruct (tget e (s_emb s)); [|split; assumption].
     destruct (0 <? e_refs e0); [|split; assumption].
-    destruct ((e_refs e0 - 1 =? 0) && negb (emb_busy e s)); [destruct (e_cap e0)|]; split; assumption.
+    destruct ((e_refs e0 - 1 =? 0) && negb (emb_busy e s) && negb (fx22 c)); [destruct (e_cap e0)|]; split; assumption.
 Qed.
 
 Lemma imp_empty_release_caps : forall c l s s' o, imp_empty s -> release_caps c l s = Ok (s', o) -> imp_empty s'.
@@ -152,7 +152,7 @@ Qed.
 Lemma lift_fixed : forall e em s, exists s' o, lift cfg_fixed e em s = Ok (s', o) /\ core_of s' = core_of s
   /\ s_imp s' = s_imp s /\ s_emb s' = s_emb s.
 Proof.
-  intros e em s. unfold lift. destruct ((e_refs em =? 0) && negb (emb_busy e s)); simpl; [eauto 6|].
+  intros e em s. unfold lift. cbn [fx22 cfg_fixed negb]. rewrite andb_false_r. cbv iota.
   match goal with |- context [wake_calls e ?x ?l ?s1] =>
     destruct (wake_calls e x l s1) as [s2 o2] eqn:E; pose proof (wake_calls_core e x l s1) as W; rewrite E in W; simpl in W end.
   destruct W as (W1 & W2 & W3).
